@@ -1,5 +1,7 @@
 import Prom.Model.Conc
 import Prom.Model.HistMachine
+import Prom.Model.RegMachine
+import Prom.Drv.Reg
 /- line-protocol handlers: areas `catom` (C01, C11), `cvec` (C10), `chist` (C02, C03) -/
 namespace Prom.Drv
 open Prom Prom.Conc
@@ -7,10 +9,18 @@ open Prom Prom.Conc
 def concHandle (area : String) (fs : List String) : String :=
   match field fs "prog", field fs "trace" with
   | some prog, some tr =>
+    let cregDefs := (((field fs "defs").getD "").splitOn "@").map fun d => defColl (d.splitOn "/")
+    if area == "creg" && (cregDefs.mapM id).isNone then "bad-def" else
     if tr == "-" && area != "catom" then "stuck" else
     let prog := parseProg prog
     let trace := parseTrace tr
-    if area == "catom" then atomReplay ((field fs "kind").getD "") prog trace
+    if area == "creg" then
+      -- defs=<def>@<def>@… with a definition's fields separated by '/'
+      let defs := (((field fs "defs").getD "").splitOn "@").map fun d => defColl (d.splitOn "/")
+      match defs.mapM id with
+      | some colls => RM.regReplay colls prog trace
+      | none => "bad-def"
+    else if area == "catom" then atomReplay ((field fs "kind").getD "") prog trace
     else if area == "cvec" then vecReplay prog trace
     else
       let bounds := (((field fs "bounds").getD "").splitOn ",").map fun x => f64OfInt (parseIntArg x)
